@@ -85,18 +85,22 @@ def enum_rule():
     return out
 
 
-def _arch_ops(obj, seq, new=True):
-    """Compile a call sequence on a LayeredArchitecture into ops with model annotations."""
+def _arch_ops(obj, seq, new=True, cont=False):
+    """Compile a call sequence on a LayeredArchitecture into ops with model annotations.
+    cont: the caller goes on using the object after a rejected call (the rejected call
+    supplied nothing, so the definition must be what it was)."""
     ops = []
     model = LayerDefModel()
     if new:
         ops.append({"op": "new", "obj": obj, "cls": "LayeredArchitecture"})
     for m, a in seq:
         verdict, reason = model.classify(m, a)
-        ops.append({"op": "call", "obj": obj, "m": m, "a": a})
+        ops.append({"op": "call", "obj": obj, "m": m, "a": a, **({"cont": True} if cont else {})})
         if verdict == MUST_REJECT:
-            break
-        model.apply(m, a)
+            if not cont:
+                break
+        else:
+            model.apply(m, a)
         # observation steps; what they must show is decided by the judge's own model
         ops.append({"op": "str", "obj": obj})
         for layer, _ in model.listing():
@@ -104,19 +108,21 @@ def _arch_ops(obj, seq, new=True):
     return ops, model
 
 
-def _rule_ops(obj, seq):
+def _rule_ops(obj, seq, cont=False):
     ops = [{"op": "new", "obj": obj, "cls": "LayerRule"}]
     model = LayerRuleModel()
     for m, a in seq:
         verdict, reason = model.classify(m, a)
-        ops.append({"op": "call", "obj": obj, "m": m, "a": a})
+        ops.append({"op": "call", "obj": obj, "m": m, "a": a, **({"cont": True} if cont else {})})
         if verdict == MUST_REJECT:
-            break
-        model.apply(m, a)
+            if not cont:
+                break
+        else:
+            model.apply(m, a)
     return ops
 
 
-def _random_arch_seq(rng, n):
+def _random_arch_seq(rng, n, stop=True):
     seq = []
     model = LayerDefModel()
     lay = rng.sample(LN, rng.randint(2, 4))
@@ -142,15 +148,18 @@ def _random_arch_seq(rng, n):
         seq.append(call)
         verdict, _ = model.classify(*call)
         if verdict == MUST_REJECT:
-            break
+            if stop:
+                break
+            continue
         model.apply(*call)
     return seq
 
 
-def _random_rule_seq(rng, n, arch_ref, layers):
+def _random_rule_seq(rng, n, arch_ref, layers, also_based_on=()):
     seq = []
     alphabet = (
         [("based_on", [{"$obj": arch_ref}])] * 2 + [("layers_that", [])] * 2
+        + [("based_on", [{"$obj": a}]) for a in also_based_on]
         + [("are_named", [rng.choice(layers)]) for _ in range(3)]
         + [("are_named", [rng.sample(layers, 2)])]
         + [(v, []) for v in LAYER_VERBS] + [(a, []) for a in LAYER_ACCESS]
@@ -179,7 +188,9 @@ def n_sweep_plans():
 
 def _setup_ops():
     return _arch_ops("SA", [("layer", ["LA"]), ("containing_modules", [["pk.m1", "pk.m2"]]),
-                            ("layer", ["LB"]), ("containing_modules", ["pk.m3"])])[0]
+                            ("layer", ["LB"]), ("containing_modules", ["pk.m3"])])[0] + [
+        # a second, still empty definition: a rule based on it has its architecture
+        {"op": "new", "obj": "SE", "cls": "LayeredArchitecture"}]
 
 
 def generate_sweep(seed, index):
@@ -223,8 +234,7 @@ def generate(seed, index):
     nclients = rng.randint(1, 4)
     clients = []
     # client 0 starts by building the shared, finished architecture "SA" (LA, LB)
-    setup, _ = _arch_ops("SA", [("layer", ["LA"]), ("containing_modules", [["pk.m1", "pk.m2"]]),
-                                ("layer", ["LB"]), ("containing_modules", ["pk.m3"])])
+    setup = _setup_ops()
     kinds = []
     for c in range(nclients):
         roll = rng.random()
@@ -237,12 +247,26 @@ def generate(seed, index):
             kind = "enum_rule"
             seqno = slot % len(rule_enum)
             ops = _rule_ops(f"R{c}", rule_enum[seqno])
-        elif roll < 0.8:
+        elif roll < 0.72:
             kind = "random_arch"
             ops, _ = _arch_ops(f"A{c}", _random_arch_seq(rng, rng.randint(3, 12)))
-        elif roll < 0.9:
+        elif roll < 0.8:
+            # the object stays in use after rejected calls
+            kind = "arch_continued_after_rejection"
+            if rng.random() < 0.5:
+                seq = [rng.choice(ARCH_ALPHABET) for _ in range(rng.randint(3, 9))]
+            else:
+                seq = _random_arch_seq(rng, rng.randint(4, 14), stop=False)
+            ops, _ = _arch_ops(f"A{c}", seq, cont=True)
+        elif roll < 0.85:
             kind = "random_rule"
             ops = _rule_ops(f"R{c}", _random_rule_seq(rng, rng.randint(2, 9), "SA", ["LA", "LB"]))
+        elif roll < 0.9:
+            kind = "rule_continued_after_rejection"
+            first = rng.choice(["SA", "SA", "SE"])
+            seq = _random_rule_seq(rng, rng.randint(3, 9), first, ["LA", "LB"],
+                                   also_based_on=["SA", "SE"])
+            ops = _rule_ops(f"R{c}", seq, cont=True)
         else:
             kind = "arch_then_rule"
             seq = [("layer", ["LC"]), ("containing_modules", [rng.choice([["pk.m1"], "pk.m1"])]),
